@@ -11,7 +11,7 @@ def plan(ctx, base):
 RECOVERY_KINDS = ["reset", "txp", "txf", "packet_sent", "ack_range", "packet_lost", "metrics", "space_discarded", "active_path", "packet_received", "packet_dropped", "sim_end", "panic", "stall"]
 RECOVERY_ONLY = {"txf": '"ty":"conn_close"', "packet_received": '"sp":"retry"', "packet_dropped": '"reason":"Retry'}
 GATE_KINDS = ["reset", "txp", "packet_sent", "metrics", "packet_lost", "congestion", "active_path", "panic", "stall"]
-AMP_KINDS = ["reset", "datagram_received", "datagram_sent", "rxp", "txp", "txf", "endpoint_datagram_dropped", "endpoint_packet_sent", "dg", "inject", "panic", "stall"]
+AMP_KINDS = ["reset", "datagram_received", "datagram_sent", "rxp", "txp", "txf", "rxf", "rxd", "endpoint_datagram_dropped", "endpoint_packet_sent", "dg", "inject", "panic", "stall"]
 CID_KINDS = ["reset", "tp", "txf", "rxf", "datagram_sent", "endpoint_packet_sent", "dg", "rxd", "endpoint_datagram_dropped", "conn_closed", "panic", "stall"]
 CID_ONLY = {"txf": "_cid", "rxf": "_cid", "endpoint_datagram_dropped": "UnknownDestinationConnectionId"}
 LIVE_KINDS = ["reset", "rxp", "txp", "metrics", "conn_closed", "app_send_call", "app_send", "app_finish", "app_send_done", "app_eos", "app_send_err", "app_recv_err", "app_reset", "app_stop", "app_timeout", "sim_end", "panic", "stall"]
